@@ -25,15 +25,18 @@ PeriodOf(impl) == IF Has(impl.fields, "period") THEN LookupField(impl.fields, "p
 Fits2W(p) == W >= 31 \/ p < 2^W
 Due(p, t, last) == p # NoPeriod /\ Fits2W(p) /\ GeBits(SubBits(t, last), TimeOfNat(p))
 
-VARIABLES sch,          \* the device: schema whose CAN impls are its messages, in order
+VARIABLES sch,          \* the schema; the device's messages are its CAN bindings whose `device` field names dev, in order
+          dev,          \* name of the device this scheduler belongs to
           val,          \* current value of each message (impl name -> struct value)
           lastCall,     \* timestamp of the previous call
           lastSend,     \* impl name -> timestamp of its previous transmission
           sent          \* frames handed to the send callback by the last call, in order
 
-svars == <<sch, val, lastCall, lastSend, sent>>
+svars == <<sch, dev, val, lastCall, lastSend, sent>>
 
-Msgs == CanImpls(sch)
+DeviceOf(impl) == IF Has(impl.fields, "device") THEN LitStr(LookupField(impl.fields, "device", <<>>)) ELSE "global"
+DevImpls(S, d) == SelectSeq(CanImpls(S), LAMBDA impl : DeviceOf(impl) = d)
+Msgs == DevImpls(sch, dev)
 MsgNames == {Msgs[i].name : i \in 1..Len(Msgs)}
 
 RECURSIVE ZeroVal(_, _)
@@ -45,9 +48,9 @@ ZeroVal(S, t) ==
                            [n \in {fs[i].name : i \in 1..Len(fs)} |->
                                ZeroVal(S, fs[CHOOSE i \in 1..Len(fs) : fs[i].name = n].type)]
 
-SInit(S) ==
-    /\ sch = S
-    /\ val = [n \in {S.impls[i].name : i \in {i \in 1..Len(S.impls) : S.impls[i].protocol = "can"}} |->
+SInit(S, d) ==
+    /\ sch = S /\ dev = d
+    /\ val = [n \in {DevImpls(S, d)[i].name : i \in 1..Len(DevImpls(S, d))} |->
                 ZeroVal(S, StructT(FirstNamed(S.impls, n).type))]      \* the device struct starts zeroed
     /\ lastCall = Time0
     /\ lastSend = [n \in DOMAIN val |-> Time0]
@@ -66,10 +69,10 @@ Call(t) ==
             /\ sent' = FramesAt(t)
             /\ lastSend' = [n \in DOMAIN lastSend |->
                               IF DueNow(FirstNamed(sch.impls, n), t) THEN t ELSE lastSend[n]]
-    /\ UNCHANGED <<sch, val>>
+    /\ UNCHANGED <<sch, dev, val>>
 
 SetVal(n, v) ==
     /\ val' = [val EXCEPT ![n] = v]
     /\ sent' = <<>>
-    /\ UNCHANGED <<sch, lastCall, lastSend>>
+    /\ UNCHANGED <<sch, dev, lastCall, lastSend>>
 =============================================================================
